@@ -52,6 +52,20 @@ func (c compositeMatcher) Matches(request *heimdall.Request, keys, values []stri
 	return nil
 }
 
+type anyOfMatcher []RouteMatcher
+
+func (a anyOfMatcher) Matches(request *heimdall.Request, keys, values []string) error {
+	var err error
+
+	for _, matcher := range a {
+		if err = matcher.Matches(request, keys, values); err == nil {
+			return nil
+		}
+	}
+
+	return err
+}
+
 type schemeMatcher string
 
 func (s schemeMatcher) Matches(request *heimdall.Request, _, _ []string) error {
@@ -185,6 +199,11 @@ func createHostMatcher(hosts []config.HostMatcher) (RouteMatcher, error) {
 		}
 
 		matchers[idx] = &hostMatcher{tm}
+	}
+
+	if len(matchers) > 1 {
+		// the hosts are a set: the request host has to satisfy one of the expressions, not all of them
+		return compositeMatcher{anyOfMatcher(matchers)}, nil
 	}
 
 	return matchers, nil
